@@ -1,6 +1,11 @@
 package vschema
 
-import "fmt"
+import (
+	"fmt"
+
+	"google.golang.org/protobuf/proto"
+	"google.golang.org/protobuf/types/descriptorpb"
+)
 
 // SplitMix64 PRNG: every random choice in the harness derives from one state.
 type Rand struct{ s uint64 }
@@ -362,6 +367,8 @@ func Names() []*Schema {
 		}
 		n1.Fields = append(n1.Fields, f)
 	}
+	// (a field `type_` next to `type` would collide after the rewrite, but proto3 rejects that pair:
+	// names that are equal after removing underscores and lower-casing conflict in proto3)
 	s.Msgs = []Msg{n0, n1}
 	return []*Schema{s}
 }
@@ -415,4 +422,56 @@ func Graph() []*Schema {
 	inner2 := Msg{Name: "Inner2", Fields: []Field{{Num: 1, IsMsg: true, Extern: "google.protobuf.Timestamp", Shape: Singular}, {Num: 2, Kind: Int32, Shape: Singular}}}
 	gc.Msgs = []Msg{top, inner, inner2, wk}
 	return []*Schema{ga, gb, gc}
+}
+
+// Nested: a hand-built file with nested message and enum declarations three deep (the neutral Schema
+// type only has top-level messages): exercises the flattened message/enum order, the parent-chain
+// descriptor lookup and nested Go names (Outer_Middle_Inner).
+func Nested() *descriptorpb.FileDescriptorProto {
+	opt := descriptorpb.FieldDescriptorProto_LABEL_OPTIONAL.Enum()
+	rep := descriptorpb.FieldDescriptorProto_LABEL_REPEATED.Enum()
+	msgT := descriptorpb.FieldDescriptorProto_TYPE_MESSAGE.Enum()
+	enumT := descriptorpb.FieldDescriptorProto_TYPE_ENUM.Enum()
+	f := func(name string, num int32, label *descriptorpb.FieldDescriptorProto_Label, typ *descriptorpb.FieldDescriptorProto_Type, tn string) *descriptorpb.FieldDescriptorProto {
+		fp := &descriptorpb.FieldDescriptorProto{Name: proto.String(name), JsonName: proto.String(jsonName(name)), Number: proto.Int32(num), Label: label, Type: typ}
+		if tn != "" {
+			fp.TypeName = proto.String(tn)
+		}
+		return fp
+	}
+	enum := func(name string, vals ...string) *descriptorpb.EnumDescriptorProto {
+		e := &descriptorpb.EnumDescriptorProto{Name: proto.String(name)}
+		for i, v := range vals {
+			e.Value = append(e.Value, &descriptorpb.EnumValueDescriptorProto{Name: proto.String(v), Number: proto.Int32(int32(i * 3))})
+		}
+		return e
+	}
+	i32 := descriptorpb.FieldDescriptorProto_TYPE_INT32.Enum()
+	str := descriptorpb.FieldDescriptorProto_TYPE_STRING.Enum()
+	inner := &descriptorpb.DescriptorProto{Name: proto.String("Inner"), Field: []*descriptorpb.FieldDescriptorProto{f("x", 1, opt, i32, ""), f("deep", 2, opt, enumT, ".vc.nest.Outer.Middle.Inner.Deep")},
+		EnumType: []*descriptorpb.EnumDescriptorProto{enum("Deep", "DEEP_A", "DEEP_B")}}
+	entry := &descriptorpb.DescriptorProto{Name: proto.String("MEntry"), Options: &descriptorpb.MessageOptions{MapEntry: proto.Bool(true)},
+		Field: []*descriptorpb.FieldDescriptorProto{f("key", 1, opt, str, ""), f("value", 2, opt, msgT, ".vc.nest.Outer.Middle.Inner")}}
+	middle := &descriptorpb.DescriptorProto{Name: proto.String("Middle"),
+		Field: []*descriptorpb.FieldDescriptorProto{f("inner", 1, opt, msgT, ".vc.nest.Outer.Middle.Inner"), f("mode", 2, opt, enumT, ".vc.nest.Outer.Middle.Mode"),
+			f("m", 3, rep, msgT, ".vc.nest.Outer.Middle.MEntry")},
+		NestedType: []*descriptorpb.DescriptorProto{inner, entry},
+		EnumType:   []*descriptorpb.EnumDescriptorProto{enum("Mode", "MODE_SLOW", "MODE_FAST")}}
+	outer := &descriptorpb.DescriptorProto{Name: proto.String("Outer"),
+		Field:      []*descriptorpb.FieldDescriptorProto{f("middle", 1, opt, msgT, ".vc.nest.Outer.Middle"), f("top", 2, opt, enumT, ".vc.nest.Top")},
+		NestedType: []*descriptorpb.DescriptorProto{middle}}
+	leaf := &descriptorpb.DescriptorProto{Name: proto.String("Leaf"), Field: []*descriptorpb.FieldDescriptorProto{f("s", 1, opt, str, "")}}
+	other := &descriptorpb.DescriptorProto{Name: proto.String("Other"),
+		Field: []*descriptorpb.FieldDescriptorProto{f("leaf", 1, opt, msgT, ".vc.nest.Other.Leaf"), f("color", 2, opt, enumT, ".vc.nest.Other.Color"),
+			f("far", 3, rep, msgT, ".vc.nest.Outer.Middle.Inner"), f("outer", 4, opt, msgT, ".vc.nest.Outer"), f("modes", 5, rep, enumT, ".vc.nest.Outer.Middle.Mode")},
+		NestedType: []*descriptorpb.DescriptorProto{leaf},
+		EnumType:   []*descriptorpb.EnumDescriptorProto{enum("Color", "COLOR_RED", "COLOR_GREEN", "COLOR_BLUE")}}
+	// Outer_Middle (top-level) next to Outer.Middle (nested): Go name collision candidates
+	flat := &descriptorpb.DescriptorProto{Name: proto.String("Outer_Flat"), Field: []*descriptorpb.FieldDescriptorProto{f("o", 1, opt, msgT, ".vc.nest.Other")}}
+	return &descriptorpb.FileDescriptorProto{
+		Name: proto.String("verifcorpus/nest/nest.proto"), Package: proto.String("vc.nest"), Syntax: proto.String("proto3"),
+		Options:     &descriptorpb.FileOptions{GoPackage: proto.String("github.com/cosmos/cosmos-proto/internal/verifcorpus/nest")},
+		MessageType: []*descriptorpb.DescriptorProto{outer, other, flat},
+		EnumType:    []*descriptorpb.EnumDescriptorProto{enum("Top", "TOP_ZERO", "TOP_ONE")},
+	}
 }
